@@ -212,7 +212,8 @@ class Run:
             if self.sc.get("qlink10"):
                 import qlink_interface as q1
                 resp = q1.ResCreateAndKeep(create_id=rid, directionality_flag=direction, sequence_number=k, purpose_id=purpose,
-                                           remote_node_id=key[0], goodness=1000 + rid, bell_state=spec.get("bell", 0),
+                                           remote_node_id=key[0], goodness=1000 + rid,
+                                           bell_state=q1.BellState[ql.BellState(spec.get("bell", 0)).name],
                                            logical_qubit_id=phys, time_of_goodness=2000 + rid)
             else:
                 resp = ql.LinkLayerOKTypeK(type=ql.ReturnType.OK_K, create_id=rid, logical_qubit_id=phys, directionality_flag=direction,
@@ -224,7 +225,8 @@ class Run:
             if self.sc.get("qlink10"):
                 import qlink_interface as q1
                 resp = q1.ResMeasureDirectly(create_id=rid, directionality_flag=direction, sequence_number=k, purpose_id=purpose,
-                                             remote_node_id=key[0], goodness=1000 + rid, bell_state=spec.get("bell", 0),
+                                             remote_node_id=key[0], goodness=1000 + rid,
+                                             bell_state=q1.BellState[ql.BellState(spec.get("bell", 0)).name],
                                              measurement_outcome=spec.get("outcome", 0),
                                              measurement_basis=q1.MeasurementBasis(spec.get("basis", 0)))
             else:
